@@ -1537,14 +1537,14 @@ class Data(BaseCartesianData):
           - New components must have the same shape as old components
           - Component subclasses cannot be updated.
         """
+        for data in mapping.values():
+            if np.asarray(data).shape != self.shape:
+                raise ValueError("Cannot change shape of data")
+
         for comp, data in mapping.items():
             if isinstance(comp, ComponentID):
                 comp = self.get_component(comp)
-            data = np.asarray(data)
-            if data.shape != self.shape:
-                raise ValueError("Cannot change shape of data")
-
-            comp._data = data
+            comp._data = np.asarray(data)
 
         # alert hub of the change
         if self.hub is not None:
